@@ -125,6 +125,10 @@ def _signed(atoms) -> str:
 def canon(test, truth: bool = True) -> set:
     if isinstance(test, ast.UnaryOp) and isinstance(test.op, ast.Not):
         return canon(test.operand, not truth)
+    if isinstance(test, ast.Call) and isinstance(test.func, ast.Name) and test.func.id in ("isinstance", "issubclass") and len(test.args) == 2 and isinstance(test.args[1], ast.Tuple) and test.args[1].elts and not test.keywords:
+        # isinstance(x, (A, B)) is isinstance(x, A) or isinstance(x, B)
+        parts = [ast.Call(func=test.func, args=[test.args[0], e], keywords=[]) for e in sorted(test.args[1].elts, key=norm)]
+        return canon(ast.BoolOp(op=ast.Or(), values=parts) if len(parts) > 1 else parts[0], truth)
     if isinstance(test, ast.BoolOp):
         conj = isinstance(test.op, ast.And)
         if conj == truth:  # true conjunction / false disjunction: every part has that truth
